@@ -51,11 +51,28 @@ def _classes(v: Sym, table: Dict[str, str]) -> Set[str]:
 def _small_helpers(mod, fn, known: Dict[str, str]) -> Dict[str, Any]:
     """module-level private helpers called from fn (small, loop-free): inlined so that their transform is visible"""
     out: Dict[str, Any] = {}
-    for c in ast.walk(fn):
-        if isinstance(c, ast.Call) and isinstance(c.func, ast.Name) and c.func.id.startswith("_") and c.func.id not in known and mod.has(c.func.id):
-            h = mod.func(c.func.id)
-            if len(h.body) <= 8 and not any(isinstance(n, (ast.For, ast.While)) for n in ast.walk(h)):
-                out[c.func.id] = (mod, h)
+    seen = set()
+    work = [fn]
+    while work:
+        f = work.pop()
+        if id(f) in seen:
+            continue
+        seen.add(id(f))
+        for c in ast.walk(f):
+            if not isinstance(c, ast.Call):
+                continue
+            if isinstance(c.func, ast.Name) and c.func.id.startswith("_") and c.func.id not in known and mod.has(c.func.id):
+                h = mod.func(c.func.id)
+                if len(h.body) <= 8 and not any(isinstance(n, (ast.For, ast.While)) for n in ast.walk(h)):
+                    out[c.func.id] = (mod, h)
+                    work.append(h)
+            elif isinstance(c.func, ast.Attribute) and isinstance(c.func.value, ast.Name) and c.func.value.id in ("cls", "self") and c.func.attr.startswith("_") and len(seen) < 6:
+                # a private method of the same class that the function delegates to (E2 inlines it): helpers it calls count too
+                for q in (k for k in mod.defs if k.endswith("." + c.func.attr) and k.count(".") == 1):
+                    try:
+                        work.append(mod.func(q))
+                    except Exception:
+                        pass
     return out
 
 
